@@ -18,6 +18,7 @@ CONSTANTS
   DEV_KaRefire = FALSE
   DEV_HeadRefire = FALSE
   DEV_KaRearmsShutdown = FALSE
+  DEV_LingerTimerAfterFlush = FALSE
   Enforce = {"C01", "C02", "C03", "C04", "C06"}
 INVARIANTS EmitScript RefAccepts ShutdownIsTimed IdleIsTimed NoMissedDeadline
 VIEW View
